@@ -38,10 +38,11 @@ const (
 	ffPartial    // record set cut inside a batch
 	ffLeaderMove // leadership moves to another broker
 	ffOutOfRange // OFFSET_OUT_OF_RANGE: the consumer must stop
+	ffNoLeader   // NOT_LEADER for one partition of the request, which then has no leader for some metadata answers (its re-dispatch fails a few times; partitions sharing the broker go on)
 	nFetchFaults
 )
 
-var ffNames = []string{"ok", "redispatch-code", "other-code", "omit-block", "silent", "drop", "throttled-empty", "empty", "partial", "leader-move", "out-of-range"}
+var ffNames = []string{"ok", "redispatch-code", "other-code", "omit-block", "silent", "drop", "throttled-empty", "empty", "partial", "leader-move", "out-of-range", "no-leader"}
 
 var redispatchCodes = []sarama.KError{sarama.ErrNotLeaderForPartition, sarama.ErrLeaderNotAvailable, sarama.ErrUnknownTopicOrPartition, sarama.ErrReplicaNotAvailable}
 var otherFetchCodes = []sarama.KError{sarama.ErrRequestTimedOut, sarama.ErrBrokerNotAvailable, sarama.ErrKafkaStorageError, sarama.ErrUnknown}
@@ -200,6 +201,31 @@ func runCons(sc *consScenario, rng *rand.Rand) *consResult {
 	var appProgress int64
 	sink.extra = func() int64 { return sim.Progress() + atomic.LoadInt64(&appProgress) }
 
+	// leaderless windows opened by ffNoLeader, closed after a number of metadata answers
+	type pendingLeader struct {
+		topic  string
+		part   int32
+		leader int32
+		after  int32
+	}
+	var plMu sync.Mutex
+	var pendingLeaders []pendingLeader
+	var metaN int32
+	sim.OnMetadata = func(ctx *sarama.VSimReqCtx) sarama.VSimConnAction {
+		n := atomic.AddInt32(&metaN, 1)
+		plMu.Lock()
+		keep := pendingLeaders[:0]
+		for _, pl := range pendingLeaders {
+			if n > pl.after {
+				sim.SetLeader(pl.topic, pl.part, pl.leader)
+			} else {
+				keep = append(keep, pl)
+			}
+		}
+		pendingLeaders = keep
+		plMu.Unlock()
+		return sarama.VSimConnAction{}
+	}
 	var fi int32
 	sim.OnFetch = func(ctx *sarama.VSimFetchCtx) sarama.VSimFetchAction {
 		act := sarama.VSimFetchAction{Magic: sc.Magic, Codec: sc.Codec, BatchSizes: sc.BatchSizes, AlignTo: sc.AlignTo, MaxBatches: sc.MaxBatches, PartIdx: -1, HonourMax: sc.HonourMax, LogAppend: sc.LogAppend}
@@ -236,6 +262,16 @@ func runCons(sc *consScenario, rng *rand.Rand) *consResult {
 				frac = sc.CutFrac[i]
 			}
 			act.CutAt = 20 + int(frac*200)
+		case ffNoLeader:
+			if len(ctx.Parts) > 0 {
+				p := ctx.Parts[0]
+				plMu.Lock()
+				// one failing leader lookup costs Metadata.Retry.Max+1 = 4 metadata requests
+				pendingLeaders = append(pendingLeaders, pendingLeader{p.Topic, p.Partition, ctx.Broker, atomic.LoadInt32(&metaN) + int32(5+i%7)})
+				plMu.Unlock()
+				sim.SetLeader(p.Topic, p.Partition, -1)
+				act.Kind, act.Code, act.PartIdx = sarama.VFErr, sarama.ErrNotLeaderForPartition, 0
+			}
 		case ffLeaderMove:
 			if sc.Brokers > 1 && len(ctx.Parts) > 0 {
 				p := ctx.Parts[0]
@@ -931,11 +967,11 @@ func consScenarioFor(prop, tier string, rng *rand.Rand) *consScenario {
 	if density > 0 {
 		nf = 2 + rng.Intn(25)
 	}
-	weights := []int{0, 14, 8, 5, 2, 7, 5, 6, 10, 8, 1}
+	weights := []int{0, 14, 8, 5, 2, 7, 5, 6, 10, 8, 1, 6}
 	for i := 0; i < nf; i++ {
 		f := ffOk
 		if rng.Float64() < density*2 {
-			x := rng.Intn(66)
+			x := rng.Intn(72)
 			for k, w := range weights {
 				if x < w {
 					f = k
